@@ -1,31 +1,58 @@
 #!/usr/bin/env python3
-"""Keep a confirmed seeded change: lib/keep_mutant.py Cxx N '<confirm summary>' '<detection json lines file>'"""
-import sys, os, json, shutil
+"""Keep a confirmed seeded change under /verif/seeded/<id>-<n>/ (patch.diff, demo.diff, meta.json).
+usage: lib/keep_mutant.py Cxx N [--patch file] [--note text]   (reads /tmp/confirm_*.log and /tmp/try_*.log / /tmp/det_all.log)"""
+import sys, os, json, shutil, glob, re
 ROOT = os.path.dirname(os.path.dirname(os.path.abspath(__file__)))
-pid, n, confirm, detfile = sys.argv[1], sys.argv[2], sys.argv[3], sys.argv[4]
+pid, n = sys.argv[1], sys.argv[2]
+args = sys.argv[3:]
+patchfile = args[args.index("--patch") + 1] if "--patch" in args else f"/tmp/mut/{pid}-out/patch{n}.diff"
+note = args[args.index("--note") + 1] if "--note" in args else None
 src = f"/tmp/mut/{pid}-out"
 dst = os.path.join(ROOT, "seeded", f"{pid}-{n}")
 os.makedirs(dst, exist_ok=True)
-shutil.copy(f"{src}/patch{n}.diff", f"{dst}/patch.diff")
+shutil.copy(patchfile, f"{dst}/patch.diff")
 shutil.copy(f"{src}/demo{n}.diff", f"{dst}/demo.diff")
 try:
     meta = json.load(open(f"{src}/meta{n}.json"))
 except Exception as e:
     meta = {"note": f"agent meta unreadable: {e}"}
+# my confirmation
+confirm = None
+for f in sorted(glob.glob("/tmp/confirm_*.log")):
+    txt = open(f).read()
+    m = re.search(r"#### %s %s\n(.*?)(?=\n#### |\Z)" % (pid, n), txt, re.S)
+    if m:
+        body = m.group(1)
+        lines = [l for l in body.splitlines() if l.startswith("passed") or "FAILED" in l and l.startswith("test ")]
+        confirm = lines
+ROUNDS = [("/tmp/det_all.log", "round 1 (machinery as first built, commit ba9e68e)"),
+          ("/tmp/try_q1.log", "round 1 (machinery as first built, commit ba9e68e)"),
+          ("/tmp/try_q2.log", "round 2 (after the first strengthening, commit fbbdce9)"),
+          ("/tmp/try_q3.log", "round 3 (after the second strengthening, commit 14ceb53+)"),
+          ("/tmp/try_q4.log", "round 4 (after the third strengthening)"),
+          ("/tmp/try_q5.log", "round 5")]
 det = []
-for l in open(detfile):
-    try:
-        j = json.loads(l)
-    except Exception:
+base = os.path.basename(patchfile)
+for f, label in ROUNDS:
+    if not os.path.exists(f):
         continue
-    if j.get("patch", "").startswith(f"{pid}-out/patch{n}"):
-        det.append({k: j[k] for k in ("check", "exit", "violations", "guards", "known")})
+    for l in open(f):
+        try:
+            j = json.loads(l)
+        except Exception:
+            continue
+        if j.get("patch") in (f"{pid}-out/patch{n}.diff", f"{pid}-out/{base}"):
+            det.append({"round": label, **{k: j[k] for k in ("check", "exit", "violations", "guards", "known") if k in j}})
 out = {"breaks_property": pid, "summary": meta.get("summary"), "needs_to_manifest": meta.get("needs_to_manifest"),
-       "files": meta.get("files"), "author": "independent sub-agent given only the property text and a scratch worktree",
+       "files": meta.get("files"), "author": "independent sub-agent given only the property text and a scratch worktree of /repo",
        "agent_ran": meta.get("ran"),
-       "confirmed_by_me": {"how": "lib/confirm_mutant.sh in the scratch worktree: (1) patch alone, whole suite; (2) patch + demo; (3) demo alone",
+       "confirmed_by_me": {"how": "lib/confirm_mutant.sh in the scratch worktree: (1) patch alone: whole suite; (2) patch + demo; (3) demo alone",
                            "result": confirm},
        "detection": det,
-       "detected": any(d["exit"] == 1 for d in det)}
+       "detected_finally": bool(det) and any(d["exit"] == 1 for d in det if d["round"] == det[-1]["round"]),
+       "first_evaluated_in": det[0]["round"] if det else None,
+       "detected_when_first_evaluated": (any(d["exit"] == 1 for d in det if d["round"] == det[0]["round"]) if det else None)}
+if note:
+    out["note"] = note
 json.dump(out, open(f"{dst}/meta.json", "w"), indent=1)
-print(dst, "detected" if out["detected"] else "NOT DETECTED", [d["guards"] for d in det])
+print(f"{pid}-{n}", "first:", out["detected_when_first_evaluated"], "finally:", out["detected_finally"], sorted({g for d in det for g in d.get("guards", [])})[:4])
